@@ -6,7 +6,7 @@ compiler raises and WITH WHICH CLASS, in the order in which the real phases run.
 
   compile(file) = _compile(...) with RecursionError -> SsbCompilerError            ssb_compiler.py
     is-ssb-script attribute: macros_only → SsbCompilerError, else SsbScript compiler, return
-    _resolve_imported_file: every import must resolve to a file   SsbCompilerError "was not found"
+    _resolve_imported_file: every import, each on its own, must resolve to a file (Import.resolve)   SsbCompilerError "was not found"
     per import, in order: path in recursion_check          SsbCompilerError "Infinite recursion"
                           compile(sub, macros_only=True)   whatever the sub-compilation raises
     MacroResolutionOrderVisitor._check_cycles              SsbCompilerError
@@ -332,9 +332,9 @@ def checkFile (cfg : Cfg) (w : World) : Nat → List String → String → Bool 
     | none => .error .ssbCompilerError
     | some f =>
       if f.isSsbScript then (if macrosOnly then .error .ssbCompilerError else .ok [])
-      else if f.imports.any Option.isNone then .error .ssbCompilerError  -- "The file to import … was not found"
+      else if (f.resolved w).any Option.isNone then .error .ssbCompilerError  -- "The file to import … was not found"
       else
-        match importAll (fun s => checkFile cfg w fuel (rc ++ [k]) s true) rc f.imports [] with
+        match importAll (fun s => checkFile cfg w fuel (rc ++ [k]) s true) rc (f.resolved w) [] with
         | .error e => .error e
         | .ok imported =>
           match checkLocal cfg imported f macrosOnly with
